@@ -119,7 +119,7 @@ func (t *TinyLfu[K, V]) fspec_removeCallback(entry *Entry[K, V]) {
 	requires("entry", entry != nil && !sp_tracked(t, entry))
 	modifies("Entry.flag.Flags", "Entry.meta.wheelPrev", "Entry.meta.wheelNext",
 		"mapdom<map[K]*Entry>", "mapval<map[K]*Entry>", "maplen<map[K]*Entry>", "gh.owned", "gh.now", "Entry.value")
-	ensures("region_flags", all(func(x *Entry[K, V]) bool { return x.flag.Flags&(1|2|4|64) == old(x.flag.Flags)&(1|2|4|64) }))
+	ensures("region_flags", all(func(x *Entry[K, V]) bool { return x.flag.Flags&(1|2|4|16|64) == old(x.flag.Flags)&(1|2|4|16|64) }))
 }
 
 // remove a tracked entry from its region
@@ -146,6 +146,7 @@ func (t *TinyLfu[K, V]) spec_Remove(entry *Entry[K, V], callback bool) {
 	ensures("caps", t.window.capacity == old(t.window.capacity) && t.slru.protected.capacity == old(t.slru.protected.capacity))
 	// the status bits (removed, from-secondary, deleted) of every entry are left alone
 	ensures("status_flags", imp(!callback, all(func(x *Entry[K, V]) bool { return x.flag.Flags&(8|16|32) == old(x.flag.Flags)&(8|16|32) })))
+	ensures("nvm_kept", all(func(x *Entry[K, V]) bool { return x.flag.Flags&16 == old(x.flag.Flags)&16 }))
 }
 
 // ---- adaptive resizing ---------------------------------------------------------------------------------
@@ -272,11 +273,14 @@ func (t *TinyLfu[K, V]) spec_evictFromMain(candidate *Entry[K, V]) {
 	ensures("inv", sp_policyInv(t))
 	ensures("fits", t.weightedSize <= t.capacity)
 	ensures("only_removes", sp_onlyRemoves(t))
+	// C15: the from-secondary mark of every entry is left alone
+	ensures("nvm_kept", all(func(x *Entry[K, V]) bool { return x.flag.Flags&16 == old(x.flag.Flags)&16 }))
 }
 
 func (t *TinyLfu[K, V]) spec_evictFromMain_loop1(candidate, victim *Entry[K, V], victimQueue, candidateQueue uint8) {
 	invariant("inv", sp_policyInv(t))
 	invariant("only_removes", sp_onlyRemoves(t))
+	invariant("nvm_kept", all(func(x *Entry[K, V]) bool { return x.flag.Flags&16 == old(x.flag.Flags)&16 }))
 	invariant("queues", (victimQueue == LIST_PROBATION || victimQueue == LIST_PROTECTED || victimQueue == LIST_WINDOW) &&
 		(candidateQueue == LIST_PROBATION || candidateQueue == LIST_WINDOW))
 	// the victim is the member with the greatest label (the LRU end) of its queue; nil iff the queue is empty
@@ -300,6 +304,7 @@ func (t *TinyLfu[K, V]) spec_EvictEntries() {
 		return imp(sp_tracked(t, x), old(sp_tracked(t, x))) && x.policyWeight == old(x.policyWeight)
 	}))
 	ensures("caps", t.window.capacity == old(t.window.capacity) && t.slru.protected.capacity == old(t.slru.protected.capacity))
+	ensures("nvm_kept", all(func(x *Entry[K, V]) bool { return x.flag.Flags&16 == old(x.flag.Flags)&16 }))
 }
 
 // ---- cost update ----------------------------------------------------------------------------------------------
@@ -332,6 +337,7 @@ func (t *TinyLfu[K, V]) spec_UpdateCost(entry *Entry[K, V], weightChange int64) 
 	ensures("no_new", all(func(x *Entry[K, V]) bool {
 		return imp(sp_tracked(t, x), old(sp_tracked(t, x))) && x.policyWeight == old(x.policyWeight)
 	}))
+	ensures("nvm_kept", all(func(x *Entry[K, V]) bool { return x.flag.Flags&16 == old(x.flag.Flags)&16 }))
 }
 
 // ---- insertion ---------------------------------------------------------------------------------------------------
@@ -349,4 +355,5 @@ func (t *TinyLfu[K, V]) spec_Set(entry *Entry[K, V]) {
 		return imp(sp_tracked(t, x) && x != entry, old(sp_tracked(t, x))) && x.policyWeight == old(x.policyWeight)
 	}))
 	ensures("sketch", sp_sketchInv(t.sketch))
+	ensures("nvm_kept", all(func(x *Entry[K, V]) bool { return x.flag.Flags&16 == old(x.flag.Flags)&16 }))
 }
